@@ -254,6 +254,13 @@ def stat_record(it, prefix="st", min_fields=37):
     a(Eq(smt.Len(smt.Nth(F, I(0))), I(1)))
     for k in DIGIT_FIELDS:
         a(Implies(smt.Cmp(">", smt.Len(F), I(k)), lib.in_re(smt.Nth(F, I(k)), lib.digits_re())))
+    # redundant consequences of the definition of `data` (nothing new is assumed): they name the position of the
+    # closing parenthesis so that the solvers do not have to rediscover it inside every obligation
+    k = smt.Add(smt.Add(smt.Len(pid_s), I(2)), smt.Len(comm))
+    a(Eq(smt.Substr(data, k, I(1)), S(b")")))
+    a(Eq(smt.Substr(data, smt.Add(k, I(2)), smt.Len(rest)), rest))
+    a(Eq(smt.Len(data), smt.Add(smt.Add(k, I(2)), smt.Len(rest))))
+    a(Not(smt.Contains(smt.Substr(data, smt.Add(k, I(1)), smt.Add(smt.Len(rest), I(1))), S(b")"))))
     rec = {"data": data, "pid_s": pid_s, "comm": comm, "rest": rest, "F": SymList(F, bk="bytes")}
     it.ctx.ghost[key] = rec
     for v in (pid_s, comm, rest, F):
